@@ -18,6 +18,7 @@ type CaseTokList struct {
 	Bad    B           `json:"bad"`    // the illegal byte (1 byte)
 	Entry  string      `json:"entry"`  // "tok" (ParseTokenParam loop) | "uriparams" | "urihdrs"
 	PCap   int         `json:"p_cap"`
+	Cut    int         `json:"cut"` // > 0: the buffer first ends after this many bytes of the list (then the rest arrives)
 }
 
 type tokExp struct {
@@ -177,12 +178,27 @@ func evalTokList(c CaseTokList) Result {
 	if injAt >= 0 {
 		classes = append(classes, "injected")
 	}
+	cutAt := 0
+	if c.Cut > 0 {
+		cutAt = start + c.Cut
+		classes = append(classes, "chunked")
+	}
 	switch c.Entry {
 	case "tok":
 		offs := start
 		for i := 0; ; i++ {
 			var p sipsp.PTokParam
-			o, e := sipsp.ParseTokenParam(buf, offs, &p, pflags)
+			o, e := offs, sipsp.ErrHdrMoreBytes
+			if cutAt > offs && cutAt < len(buf) {
+				o, e = sipsp.ParseTokenParam(buf[:cutAt:cutAt], offs, &p, pflags&^sipsp.POptInputEndF)
+				if e != sipsp.ErrHdrMoreBytes {
+					p.Reset() // definitive on the short buffer: this parameter is parsed again from scratch below
+					o, e = offs, sipsp.ErrHdrMoreBytes
+				}
+			}
+			if e == sipsp.ErrHdrMoreBytes {
+				o, e = sipsp.ParseTokenParam(buf, o, &p, pflags)
+			}
 			if injAt >= 0 {
 				// the illegal byte must be rejected where it is, not absorbed
 				if isErrVerdict(e) {
@@ -233,14 +249,38 @@ func evalTokList(c CaseTokList) Result {
 			if c.PCap >= 0 {
 				up.Init(make([]sipsp.URIParam, c.PCap))
 			}
-			o, vno, e = sipsp.ParseAllURIParams(buf, start, &up, pflags)
+			o, e = start, sipsp.ErrHdrMoreBytes
+			if cutAt > start && cutAt < len(buf) {
+				var v1 int
+				o, v1, e = sipsp.ParseAllURIParams(buf[:cutAt:cutAt], start, &up, pflags&^sipsp.POptInputEndF)
+				vno += v1
+				if e != sipsp.ErrHdrMoreBytes {
+					up.Reset()
+					vno, o, e = 0, start, sipsp.ErrHdrMoreBytes
+				}
+			}
+			var v2 int
+			o, v2, e = sipsp.ParseAllURIParams(buf, o, &up, pflags)
+			vno += v2
 			n, stored = up.N, up.PNo()
 			get = func(i int) *sipsp.PTokParam { return &up.Params[i].Param }
 		} else {
 			if c.PCap >= 0 {
 				uh.Init(make([]sipsp.URIHdr, c.PCap))
 			}
-			o, vno, e = sipsp.ParseAllURIHdrs(buf, start, &uh, pflags)
+			o, e = start, sipsp.ErrHdrMoreBytes
+			if cutAt > start && cutAt < len(buf) {
+				var v1 int
+				o, v1, e = sipsp.ParseAllURIHdrs(buf[:cutAt:cutAt], start, &uh, pflags&^sipsp.POptInputEndF)
+				vno += v1
+				if e != sipsp.ErrHdrMoreBytes {
+					uh.Reset()
+					vno, o, e = 0, start, sipsp.ErrHdrMoreBytes
+				}
+			}
+			var v2 int
+			o, v2, e = sipsp.ParseAllURIHdrs(buf, o, &uh, pflags)
+			vno += v2
 			n, stored = uh.N, uh.HNo()
 			get = func(i int) *sipsp.PTokParam { return (*sipsp.PTokParam)(&uh.Hdrs[i]) }
 		}
@@ -395,6 +435,9 @@ func genCaseTokList(t *rapid.T) CaseTokList {
 	}
 	c.L = l
 	c.Pre = genJunkPrefix(t)
+	if rapid.IntRange(0, 2).Draw(t, "chunked") == 0 {
+		c.Cut = rapid.IntRange(1, 60).Draw(t, "cut")
+	}
 	if rapid.IntRange(0, 4).Draw(t, "inject") == 0 {
 		c.Inject = rapid.IntRange(0, 1000).Draw(t, "injpos")
 		// bytes outside the documented set: always-illegal ones plus those that are
